@@ -5,4 +5,7 @@ def module_for(pid):
     if pid == 'C11':
         from . import defrag
         return defrag
+    from . import jobs
+    if pid in jobs.JOBS:
+        return jobs
     return None
